@@ -3,6 +3,7 @@ SPECIFICATION TraceSpec
 CONSTANTS
   GRIDS <- TinyGrids
   SGRIDS <- TinyGrids
+  AGRIDS <- TinyGrids
   KMAX = 3
   DEN = 2
   OCCVALS = {0, 1, 2}
